@@ -3,7 +3,7 @@
 
 use rtcp_types::prelude::*;
 use rtcp_types::{
-    App, Bye, Compound, Fir, Nack, Packet, PayloadFeedback, Pli, ReceiverReport, ReportBlock, Rpsi,
+    App, Bye, Compound, Fir, FirEntry, Nack, Packet, PayloadFeedback, Pli, ReceiverReport, ReportBlock, Rpsi,
     RtcpPacket, RtcpParseError, Sdes, SdesChunk, SdesItem, SenderReport, Sli, TransportFeedback,
     Unknown,
 };
@@ -72,6 +72,46 @@ fn drive_str<T>(r: Option<Drive<T>>, f: impl Fn(&T) -> String) -> String {
     }
 }
 
+/// The `<key>.adapt` value (PROTOCOL.md §5, iterator adaptors):
+/// `count();last();skip(1)..;nth(2);step_by(2)..;next() then nth(1)`, every part on a fresh
+/// iterator from `mk`, the whole under one `catch_unwind`. Collections take at most `cap` calls
+/// of `next()` (`cap` if none of them returned `None`).
+fn adapt<I: Iterator>(
+    mk: impl Fn() -> I,
+    cap: usize,
+    f: impl Fn(&I::Item) -> String,
+) -> String {
+    let opt = |o: Option<I::Item>| match o {
+        Some(e) => f(&e),
+        None => "none".to_string(),
+    };
+    let coll = |d: Drive<I::Item>| match d {
+        Drive::Cap => "cap".to_string(),
+        Drive::Done(v) => list(v.iter().map(&f).collect()),
+    };
+    guard(|| {
+        let count = mk().count();
+        let last = opt(mk().last());
+        let skip = coll(drive(mk().skip(1), cap));
+        let nth = opt(mk().nth(2));
+        let step = coll(drive(mk().step_by(2), cap));
+        let mut it = mk();
+        let _ = it.next();
+        let after = opt(it.nth(1));
+        format!("{count};{last};{skip};{nth};{step};{after}")
+    })
+    .unwrap_or_else(|| "panic".to_string())
+}
+
+/// `get_*_string()` outcome: `ok:<hex of the String's bytes>` | `err` | `panic`.
+fn str_val(r: Option<Result<String, std::string::FromUtf8Error>>) -> String {
+    match r {
+        None => "panic".to_string(),
+        Some(Err(_)) => "err".to_string(),
+        Some(Ok(s)) => format!("ok:{}", hex(s.as_bytes())),
+    }
+}
+
 // ---------------------------------------------------------------------------------------------
 // report blocks
 
@@ -88,7 +128,9 @@ fn rb_str(rb: &ReportBlock) -> String {
     .join(",")
 }
 
-fn rbs_keys(out: &mut Out, pfx: &str, blocks: Option<Vec<ReportBlock>>) {
+fn rbs_keys<'r, I: Iterator<Item = ReportBlock<'r>>>(out: &mut Out, pfx: &str, mk: impl Fn() -> I) {
+    let blocks = guard(|| mk().collect::<Vec<_>>());
+    out.kv(pfx, "rbs.adapt", &adapt(&mk, usize::MAX, rb_str));
     match blocks {
         None => out.kv(pfx, "rbs", "panic"),
         Some(v) => {
@@ -122,6 +164,7 @@ fn app_body(out: &mut Out, pfx: &str, app: &App, base: Base) {
         let _ = app.get_name_string();
     });
     out.kv(pfx, "strs", if strs.is_some() { "ok" } else { "panic" });
+    out.kv(pfx, "name_str", &str_val(guard(|| app.get_name_string())));
 }
 
 fn bye_body(out: &mut Out, pfx: &str, bye: &Bye, base: Base) {
@@ -130,6 +173,11 @@ fn bye_body(out: &mut Out, pfx: &str, bye: &Bye, base: Base) {
         None => "panic".to_string(),
     };
     out.kv(pfx, "ssrcs", &ssrcs);
+    out.kv(
+        pfx,
+        "ssrcs.adapt",
+        &adapt(|| bye.ssrcs(), usize::MAX, |s| s.to_string()),
+    );
     let reason = match guard(|| bye.reason()) {
         None => "panic".to_string(),
         Some(None) => "none".to_string(),
@@ -140,12 +188,18 @@ fn bye_body(out: &mut Out, pfx: &str, bye: &Bye, base: Base) {
         let _ = bye.get_reason_string();
     });
     out.kv(pfx, "strs", if strs.is_some() { "ok" } else { "panic" });
+    let reason_str = match guard(|| bye.get_reason_string()) {
+        None => "panic".to_string(),
+        Some(None) => "none".to_string(),
+        Some(Some(r)) => str_val(Some(r)),
+    };
+    out.kv(pfx, "reason_str", &reason_str);
 }
 
 fn rr_body(out: &mut Out, pfx: &str, rr: &ReceiverReport) {
     out.kv(pfx, "ssrc", &num(|| rr.ssrc()));
     out.kv(pfx, "n_reports", &num(|| rr.n_reports()));
-    rbs_keys(out, pfx, guard(|| rr.report_blocks().collect::<Vec<_>>()));
+    rbs_keys(out, pfx, || rr.report_blocks());
 }
 
 fn sr_body(out: &mut Out, pfx: &str, sr: &SenderReport) {
@@ -155,7 +209,7 @@ fn sr_body(out: &mut Out, pfx: &str, sr: &SenderReport) {
     out.kv(pfx, "rtp", &num(|| sr.rtp_timestamp()));
     out.kv(pfx, "pc", &num(|| sr.packet_count()));
     out.kv(pfx, "oc", &num(|| sr.octet_count()));
-    rbs_keys(out, pfx, guard(|| sr.report_blocks().collect::<Vec<_>>()));
+    rbs_keys(out, pfx, || sr.report_blocks());
 }
 
 fn item_str(item: &SdesItem, base: Base) -> String {
@@ -179,6 +233,11 @@ fn item_str(item: &SdesItem, base: Base) -> String {
 }
 
 fn sdes_body(out: &mut Out, pfx: &str, sdes: &Sdes, base: Base) {
+    out.kv(
+        pfx,
+        "chunks.adapt",
+        &adapt(|| sdes.chunks(), usize::MAX, |c| num(|| c.ssrc())),
+    );
     match guard(|| sdes.chunks().collect::<Vec<&SdesChunk>>()) {
         None => out.kv(pfx, "chunks", "panic"),
         Some(chunks) => {
@@ -186,12 +245,22 @@ fn sdes_body(out: &mut Out, pfx: &str, sdes: &Sdes, base: Base) {
             for (i, chunk) in chunks.iter().enumerate() {
                 out.kv(pfx, &format!("c{i}.ssrc"), &num(|| chunk.ssrc()));
                 out.kv(pfx, &format!("c{i}.length"), &num(|| chunk.length()));
+                out.kv(
+                    pfx,
+                    &format!("c{i}.items.adapt"),
+                    &adapt(|| chunk.items(), usize::MAX, |it| num(|| it.type_())),
+                );
                 match guard(|| chunk.items().collect::<Vec<&SdesItem>>()) {
                     None => out.kv(pfx, &format!("c{i}.items"), "panic"),
                     Some(items) => {
                         out.kv(pfx, &format!("c{i}.items"), &items.len().to_string());
                         for (j, item) in items.iter().enumerate() {
                             out.kv(pfx, &format!("c{i}.i{j}"), &item_str(item, base));
+                            out.kv(
+                                pfx,
+                                &format!("c{i}.i{j}.str"),
+                                &str_val(guard(|| item.get_value_string())),
+                            );
                         }
                     }
                 }
@@ -215,10 +284,12 @@ fn nack_entries(n: &Nack, len: usize) -> String {
     drive_str(guard(|| drive(n.entries(), 5 * len + 8)), |e| e.to_string())
 }
 
+fn fir_entry_str(e: &FirEntry) -> String {
+    format!("{}:{}", num(|| e.ssrc()), num(|| e.sequence()))
+}
+
 fn fir_entries(f: &Fir, len: usize) -> String {
-    drive_str(guard(|| drive(f.entries(), len + 8)), |e| {
-        format!("{}:{}", num(|| e.ssrc()), num(|| e.sequence()))
-    })
+    drive_str(guard(|| drive(f.entries(), len + 8)), fir_entry_str)
 }
 
 /// `MacroBlockEntry { start: 1, count: 2, picture_id: 3 }` -> `1:2:3`
@@ -237,12 +308,41 @@ fn mb_entry_str(dbg: &str) -> String {
     nums.join(":")
 }
 
+/// (`MacroBlockEntry` is not exported by the crate: only its `Debug` rendering is observable.)
+fn sli_entry_str<E: std::fmt::Debug>(e: &E) -> String {
+    match guard(|| format!("{:?}", e)) {
+        Some(d) => mb_entry_str(&d),
+        None => "panic".to_string(),
+    }
+}
+
 fn sli_entries(s: &Sli, len: usize) -> String {
-    drive_str(guard(|| drive(s.lost_macroblocks(), len + 8)), |e| {
-        match guard(|| format!("{:?}", e)) {
-            Some(d) => mb_entry_str(&d),
-            None => "panic".to_string(),
-        }
+    drive_str(guard(|| drive(s.lost_macroblocks(), len + 8)), sli_entry_str)
+}
+
+/// The `.adapt` sibling of an entry list `entries` (already rendered): an iterator that ran into
+/// the cap is not asked to `count()`.
+fn adapt_unless_cap(entries: &str, f: impl FnOnce() -> String) -> String {
+    if entries == "cap" {
+        "cap".to_string()
+    } else {
+        f()
+    }
+}
+
+fn nack_adapt(n: &Nack, len: usize, entries: &str) -> String {
+    adapt_unless_cap(entries, || {
+        adapt(|| n.entries(), 5 * len + 8, |e| e.to_string())
+    })
+}
+
+fn fir_adapt(f: &Fir, len: usize, entries: &str) -> String {
+    adapt_unless_cap(entries, || adapt(|| f.entries(), len + 8, fir_entry_str))
+}
+
+fn sli_adapt(s: &Sli, len: usize, entries: &str) -> String {
+    adapt_unless_cap(entries, || {
+        adapt(|| s.lost_macroblocks(), len + 8, sli_entry_str)
     })
 }
 
@@ -260,17 +360,23 @@ fn dump_fci(out: &mut Out, pfx: &str, kind: Kind, bytes: &[u8], base: Base) {
     match kind {
         Kind::Nack => {
             if let Some(n) = res_of(out, pfx, guard(|| Nack::parse(bytes))) {
-                out.kv(pfx, "entries", &nack_entries(&n, len));
+                let e = nack_entries(&n, len);
+                out.kv(pfx, "entries", &e);
+                out.kv(pfx, "entries.adapt", &nack_adapt(&n, len, &e));
             }
         }
         Kind::Fir => {
             if let Some(f) = res_of(out, pfx, guard(|| Fir::parse(bytes))) {
-                out.kv(pfx, "entries", &fir_entries(&f, len));
+                let e = fir_entries(&f, len);
+                out.kv(pfx, "entries", &e);
+                out.kv(pfx, "entries.adapt", &fir_adapt(&f, len, &e));
             }
         }
         Kind::Sli => {
             if let Some(s) = res_of(out, pfx, guard(|| Sli::parse(bytes))) {
-                out.kv(pfx, "entries", &sli_entries(&s, len));
+                let e = sli_entries(&s, len);
+                out.kv(pfx, "entries", &e);
+                out.kv(pfx, "entries.adapt", &sli_adapt(&s, len, &e));
             }
         }
         Kind::Rpsi => {
@@ -316,36 +422,47 @@ impl<'a> Feedback<'a> for PayloadFeedback<'a> {
     }
 }
 
-fn fci_outcome<F>(r: Option<Result<F, RtcpParseError>>, f: impl FnOnce(&F) -> String) -> String {
+fn fci_outcome<F>(r: &Option<Result<F, RtcpParseError>>, f: impl FnOnce(&F) -> String) -> String {
     match r {
         None => "panic".to_string(),
-        Some(Err(e)) => format!("err:{}", perr(&e)),
-        Some(Ok(v)) => f(&v),
+        Some(Err(e)) => format!("err:{}", perr(e)),
+        Some(Ok(v)) => f(v),
     }
+}
+
+/// Whether `pfx` belongs to the `rt.` dump of a build request (PROTOCOL.md §4.3).
+fn in_round_trip(pfx: &str) -> bool {
+    pfx == "rt" || pfx.starts_with("rt.")
 }
 
 /// `len` is the length of the whole feedback packet: the iterator caps are derived from it.
 fn fb_body<'a, T: Feedback<'a>>(out: &mut Out, pfx: &str, fb: &T, base: Base, len: usize) {
     out.kv(pfx, "sender_ssrc", &num(|| fb.sender()));
     out.kv(pfx, "media_ssrc", &num(|| fb.media()));
-    let v = fci_outcome(guard(|| fb.fci::<Nack>()), |n| {
-        format!("ok:{}", nack_entries(n, len))
-    });
-    out.kv(pfx, "fci.nack", &v);
-    let v = fci_outcome(guard(|| fb.fci::<Fir>()), |f| {
-        format!("ok:{}", fir_entries(f, len))
-    });
-    out.kv(pfx, "fci.fir", &v);
-    let v = fci_outcome(guard(|| fb.fci::<Sli>()), |s| {
-        format!("ok:{}", sli_entries(s, len))
-    });
-    out.kv(pfx, "fci.sli", &v);
-    let v = fci_outcome(guard(|| fb.fci::<Rpsi>()), |r| {
-        format!("ok:{}", rpsi_str(r, base))
-    });
-    out.kv(pfx, "fci.rpsi", &v);
-    let v = fci_outcome(guard(|| fb.fci::<Pli>()), |_| "ok".to_string());
-    out.kv(pfx, "fci.pli", &v);
+    let r = guard(|| fb.fci::<Nack>());
+    out.kv(pfx, "fci.nack", &fci_outcome(&r, |n| format!("ok:{}", nack_entries(n, len))));
+    if let Some(Ok(n)) = &r {
+        let e = nack_entries(n, len);
+        out.kv(pfx, "fci.nack.adapt", &nack_adapt(n, len, &e));
+    }
+    let r = guard(|| fb.fci::<Fir>());
+    out.kv(pfx, "fci.fir", &fci_outcome(&r, |f| format!("ok:{}", fir_entries(f, len))));
+    // not in the round trip of a build request: `FirBuilder` writes its entries in `HashMap`
+    // order, an order-sensitive value cannot be compared there
+    if let (Some(Ok(f)), false) = (&r, in_round_trip(pfx)) {
+        let e = fir_entries(f, len);
+        out.kv(pfx, "fci.fir.adapt", &fir_adapt(f, len, &e));
+    }
+    let r = guard(|| fb.fci::<Sli>());
+    out.kv(pfx, "fci.sli", &fci_outcome(&r, |s| format!("ok:{}", sli_entries(s, len))));
+    if let Some(Ok(s)) = &r {
+        let e = sli_entries(s, len);
+        out.kv(pfx, "fci.sli.adapt", &sli_adapt(s, len, &e));
+    }
+    let r = guard(|| fb.fci::<Rpsi>());
+    out.kv(pfx, "fci.rpsi", &fci_outcome(&r, |r| format!("ok:{}", rpsi_str(r, base))));
+    let r = guard(|| fb.fci::<Pli>());
+    out.kv(pfx, "fci.pli", &fci_outcome(&r, |_| "ok".to_string()));
 }
 
 // ---------------------------------------------------------------------------------------------
@@ -481,7 +598,21 @@ fn dump_compound(out: &mut Out, pfx: &str, bytes: &[u8], base: Base) {
         return;
     };
     let cap = bytes.len() / 4 + 8;
-    let items = match guard(|| drive(&mut c, cap)) {
+    let driven = guard(|| drive(&mut c, cap));
+    let adapted = if matches!(driven, Some(Drive::Cap)) {
+        "cap".to_string()
+    } else {
+        adapt(
+            || Compound::parse(bytes).expect("parsed before"),
+            cap,
+            |r| match r {
+                Ok(_) => "ok".to_string(),
+                Err(e) => format!("err:{}", perr(e)),
+            },
+        )
+    };
+    out.kv(pfx, "adapt", &adapted);
+    let items = match driven {
         None => {
             out.kv(pfx, "n", "panic");
             return;
